@@ -283,9 +283,16 @@ Definition restore_of (ad : adapter) (g : dg) : arg :=
   | AdNx => ANx (length g) (edge_pairs g)
   end.
 
-(* user rules of the harness: a constant outcome, or a structural predicate evaluated on the
-   argument received (number of edges <= k; otherwise fail with `fail`) *)
-Inductive ubehav := UConst (o : outcome) | UEdgesLe (k : nat) (fail : outcome).
+(* user rules of the harness:
+     UConst o        a constant outcome (ValueError is raised as ValueError, a private subclass,
+                     or golem's VerificationError itself)
+     UEdgesLe k f    a structural predicate evaluated on the argument received (number of
+                     edges <= k; otherwise fail with `f`)
+     UNested bs      a composite rule: it runs an inner GraphVerifier(built-in rules bs,
+                     raise_on_failure=True) on the graph it received (a NetworkX argument is first
+                     adapted back to an OptGraph) and returns its result / lets its
+                     VerificationError (a ValueError) escape                                  *)
+Inductive ubehav := UConst (o : outcome) | UEdgesLe (k : nat) (fail : outcome) | UNested (bs : list builtin).
 
 Definition arg_edges (a : arg) : nat :=
   match a with
@@ -293,10 +300,28 @@ Definition arg_edges (a : arg) : nat :=
   | ANx _ es => length es                   (* nx_graph.number_of_edges() *)
   end.
 
+(* the graph a composite rule verifies: the OptGraph it received, or adapter.adapt(nx_graph)
+   (node order kept; parents of c = sources of the edges into c) *)
+Definition arg_graph (a : arg) : dg :=
+  match a with
+  | AOpt _ g => g
+  | ANx n es => map (fun c => map fst (filter (fun pc => Nat.eqb (snd pc) c) es)) (seq 0 n)
+  end.
+
+(* what the inner verifier's answer means to the outer loop *)
+Definition verdict_outcome (v : verdict) : outcome :=
+  match v with
+  | Accept => RTrue
+  | Reject => RFalse
+  | RaiseVerification => RValueError          (* VerificationError is a ValueError *)
+  | RaiseOther => ROther
+  end.
+
 Definition ubehav_fn (u : ubehav) (a : arg) : outcome :=
   match u with
   | UConst o => o
   | UEdgesLe k fail => if arg_edges a <=? k then RTrue else fail
+  | UNested bs => verdict_outcome (verify (fun g => AOpt true g) true (map builtin_rule bs) (arg_graph a))
   end.
 
 Inductive crule := CB (b : builtin) | CU (native : bool) (u : ubehav).
@@ -362,6 +387,7 @@ Definition o_rule_holds (o : roracle) (c : crule) : bool :=
   | CB b => o_cond o b
   | CU _ (UConst r) => negb (rejects r)
   | CU _ (UEdgesLe k fail) => (o_edge_count o <=? k) || negb (rejects fail)
+  | CU _ (UNested bs) => forallb (o_cond o) bs
   end.
 
 (* a user rule whose declared behaviour is to raise something other than ValueError: the
@@ -371,6 +397,7 @@ Definition c_raises_other (o : roracle) (c : crule) : bool :=
   | CB _ => false
   | CU _ (UConst r) => outcome_eqb r ROther
   | CU _ (UEdgesLe k fail) => negb (o_edge_count o <=? k) && outcome_eqb fail ROther
+  | CU _ (UNested _) => false
   end.
 
 (* the argument a user rule must have received: the internal graph itself when native, the
